@@ -2,23 +2,31 @@
 
 Engine E3 (small-scope enumeration on the real objects), per sketch:
 
-* ``bloom`` / ``cms`` / ``hll``: ALL streams of length <= L over an alphabet of
-  4-5 items x weights {1,2}, the items being chosen TO COLLIDE through the
-  sketch's own hashing (public queries on fresh sketches: an item that is
-  reported present / counted only once two others are both inserted, an item
-  sharing every bit / cell of another; for HyperLogLog items sharing the first
-  and the last register with different ranks).  Every stream is checked for the
-  one-sided clause (no false negative / never underestimates), and for EVERY
-  split point s = u + v:  sketch(u).merge(sketch(v)) must be publicly
-  indistinguishable from sketch(s) (queries on the alphabet and ~40 probe
-  items, item_count, fill / error properties; for HyperLogLog cardinality() now
-  and after adding saturating probe streams that expose the register ranks).
-* ``topk``: space-saving guarantees against an exact Counter on every stream.
+* ``bloom`` / ``cms`` / ``hll``: ALL streams of length <= L (5 quick / 7 thorough)
+  over an alphabet of 4 items x weights {1,2} (5 items up to length 6 in
+  thorough), the items being chosen TO COLLIDE through the sketch's own hashing
+  (public queries on fresh sketches: an item that is reported present / counted
+  only once two others are both inserted, an item sharing every bit / cell of
+  another; for HyperLogLog items sharing the first and the last register with
+  different ranks).  Every stream is checked for the one-sided clause (no false
+  negative / never underestimates), and for EVERY split point s = u + v:
+  sketch(u).merge(sketch(v)) must be publicly indistinguishable from sketch(s)
+  (queries on the alphabet and ~40 probe items, item_count, fill / error
+  properties; for HyperLogLog cardinality() now and after adding saturating
+  probe streams that expose the register ranks).
+  These three are explored as an explicit state graph: a state is the pickled
+  sketch, every object handed to the library is re-created from such a pickle,
+  so add / merge / observe run once per distinct (state, input); every stream
+  and every (stream, split) pair is still enumerated and judged (the one-sided
+  oracle depends on the path, not only on the state).  All streams of length
+  <= 3 plus a fixed 1/257 slice are re-executed straight (no memo) and compared.
+* ``topk``: space-saving guarantees against an exact Counter on every stream
+  (straight executions).
 * ``tdigest``: 21-point quantile grid non-decreasing and inside [min, max], with
   queries only at the end / after every insertion / on merged halves.
 * ``reservoir``: exactly min(k, n) items, a sub-multiset of the stream, for
   direct streams and for every merged split.
-* ``merkle``: ALL ordered pairs of maps over 3-4 keys x {absent, v1, v2}, trees
+* ``merkle``: ALL ordered pairs of maps over 2-6 keys x {absent, v1, v2}, trees
   built three ways (build / update / overwrite+remove churn).
 * ``wrappers``: SketchCollector / TopKCollector / QuantileEstimator fed by real
   events through a real ``Simulation`` (all event sequences, two timing shapes),
@@ -398,13 +406,17 @@ def plan(tier):
     vals = [-4.0, 0.0, 1.0, 16.0]
     for c in ((5, 20) if q else (2, 5, 20)):
         for mode in ("end", "each"):
-            ml = var if c != 20 else (4 if q else 5)
+            if q:
+                ml = 5 if c != 20 else 4
+            else:
+                ml = 6 if (c != 20 and mode == "end") else 5
             P["tdigest"].append((("TDigest", {"c": c, "mode": mode, "items": vals}),
                                  symbols_of(vals), ml, True, {}))
     if not q:
-        for mode in ("end", "each"):
-            P["tdigest"].append((("TDigest", {"c": 5, "mode": mode, "items": vals, "direct_only": 1}),
-                                 symbols_of(vals), 7, False, {}))
+        P["tdigest"].append((("TDigest", {"c": 5, "mode": "each", "items": vals, "direct_only": 1}),
+                             symbols_of(vals), 7, False, {}))
+        P["tdigest"].append((("TDigest", {"c": 2, "mode": "each", "items": vals, "direct_only": 1}),
+                             symbols_of(vals), 6, False, {}))
         v5 = [-4.0, 0.0, 1.0, 1.5, 16.0]
         P["tdigest"].append((("TDigest", {"c": 5, "mode": "end", "items": v5}), symbols_of(v5), 5, True, {}))
         P["tdigest"].append((("TDigest", {"c": 1, "mode": "each", "items": v5}), symbols_of(v5), 5, True, {}))
@@ -733,12 +745,14 @@ def run_wrappers(run, tier, seed):
 def main(tier, seed, only=None):
     run = Run(PID, tier, seed, "model_checking",
               rule=("every stream (sequence of (item, weight)) up to the length bound over a colliding alphabet is fed "
-                    "to the real sketch; for the mergeable sketches every split point of every stream is merged and "
-                    "compared with the sketch of the whole stream; executions = streams checked + merges checked "
-                    "(+ simulations for the wrappers, + ordered map pairs x constructions for Merkle); distinct = "
-                    "distinct streams/pairs by construction; non-trivial by the per-driver rule in "
-                    "drivers.<name>.nontrivial_rule; states = distinct canonical sketch states (mergeable) or "
-                    "distinct public query results (others)"),
+                    "to the real sketch; for Bloom/Count-Min/HyperLogLog every split point of every stream is merged and "
+                    "compared with the sketch of the whole stream. executions = streams judged + (stream, split) pairs "
+                    "judged (+ simulations for the wrappers, + ordered map pairs x constructions for Merkle), distinct "
+                    "by construction. For bloom/cms/hll the library calls behind them are deduplicated on the pickled "
+                    "sketch state: transitions = add/merge/observe calls actually executed (once per distinct state and "
+                    "input), states = distinct pickled states reached; for the other drivers transitions = library "
+                    "calls of the straight executions and states = distinct public query results. non-trivial by the "
+                    "per-driver rule in drivers.<name>.nontrivial_rule"),
               assumptions=["exact reference = collections.Counter / set / min / max of the generated stream",
                            "PYTHONHASHSEED is pinned by the CLI; colliding alphabets are recomputed at start-up "
                            "through public queries, so they follow the hash functions actually in use",
